@@ -223,5 +223,8 @@ class TriggerHandler:
 
         Reset the settrace to the previous values.
         """
+        # when tracing is disabled we never installed (or saved) anything, so there is nothing to put back
+        if self._config.NO_TRACE:
+            return
         sys.settrace(self.__old_sys_trace)
         threading.settrace(self.__old_thread_trace)
